@@ -7,7 +7,7 @@ object" — and it is independent of the hand-written field lists of `harness/ao
 
 Canonical atoms (what the property pins and nothing else):
   * a `Term` is its label (the one reduction the property permits),
-  * a number is `repr(float(x))` (1 and 1.0 are the same number; -0.0 and 0.0 are not the same float),
+  * a number is `repr(float(x))` (1 and 1.0 are the same number, and so are -0.0 and 0.0),
   * datetimes / dates / times are `isoformat()`, uuids and paths are `str`, an enum member is its value,
   * undeclared (`extra="allow"`) attributes are not looked at.
 """
@@ -22,7 +22,8 @@ MISSING = "<attribute missing>"
 def _num(x):
     if isinstance(x, int) and abs(x) >= 2 ** 53:
         return "int:%d" % x
-    return repr(float(x))
+    x = float(x)
+    return "0.0" if x == 0 else repr(x)          # -0.0 == 0.0: the sign of a zero is not pinned
 
 
 def generic(x, memo=None):
